@@ -150,6 +150,15 @@ pub struct FnInfo {
     pub while_step: Option<String>,
     /// `for_body_state`: like `while_body`, for the function's top-level `for`
     pub for_body: bool,
+    /// like `while_step` for the function's top-level `for`: the loop is a fold over the list that calls the
+    /// generated step function (a `for_body_state` entry for the same Rust function) with this `gen` name
+    pub for_step: Option<String>,
+    /// this function *builds* a value of a type with ambient (constant) fields: its struct literal is the pair
+    /// `((ambient field values, in the spec's order), record)`; the lemma's statement says what they are
+    pub ambient_out: bool,
+    /// iteration bound of the `while` loops of this function as a Rust expression over the variables in scope at the
+    /// loop (an integer; `Z.to_nat` of it is the fuel), e.g. `n + 1 - i`: the models' own bound
+    pub fuel_local: Option<String>,
     /// match arms (by variant name) that are not translated: their bodies are dropped (the step function leaves the
     /// state alone there) and the lemma's statement excludes them
     pub skip_arms: Vec<String>,
@@ -757,6 +766,9 @@ pub fn load(repo: &str, spec: &Value) -> Result<Ctx, String> {
             neg_literal_op: fs.get("neg_literal_op").and_then(|x| x.as_bool()).unwrap_or(false),
             while_step: jstr(fs, "while_step"),
             for_body: fs.get("for_body_state").is_some(),
+            for_step: jstr(fs, "for_step"),
+            ambient_out: fs.get("ambient_out").and_then(|x| x.as_bool()).unwrap_or(false),
+            fuel_local: jstr(fs, "fuel_local"),
             skip_arms: fs.get("skip_arms").and_then(|x| x.as_array()).map(|a| a.iter().filter_map(|x| x.as_str().map(|y| y.to_string())).collect()).unwrap_or_default(),
             ret: Ty::Unknown,
             self_ty: None,
@@ -914,6 +926,30 @@ pub fn load(repo: &str, spec: &Value) -> Result<Ctx, String> {
                     }
                 }
                 idx += 1;
+            }
+            if let Some(cb) = jstr(fs, "callback_as_push") {
+                // the whole function: `mut callback: impl FnMut(X)` is a `&mut Vec<X>` (what was handed to it, in order)
+                for (j, inp) in fd.sig.inputs.iter().enumerate() {
+                    if let syn::FnArg::Typed(pt) = inp {
+                        let is_cb = matches!(&*pt.pat, syn::Pat::Ident(pi) if pi.ident == cb.as_str());
+                        if let (true, syn::Type::ImplTrait(it)) = (is_cb, &*pt.ty) {
+                            for b in &it.bounds {
+                                if let syn::TypeParamBound::Trait(tb) = b {
+                                    if let Some(seg) = tb.path.segments.last() {
+                                        if let (true, syn::PathArguments::Parenthesized(pa)) = (seg.ident == "FnMut", &seg.arguments) {
+                                            if pa.inputs.len() == 1 {
+                                                params[j].ty = Ty::List(Box::new(ctx.ty_of(&pa.inputs[0], self_ty.as_ref(), None, &g)));
+                                                if !info.mut_params.contains(&j) {
+                                                    info.mut_params.push(j);
+                                                }
+                                            }
+                                        }
+                                    }
+                                }
+                            }
+                        }
+                    }
+                }
             }
             info.params = params;
             if let Some(st) = fs.get("while_body_state").or_else(|| fs.get("for_body_state")).and_then(|x| x.as_array()) {
